@@ -27,6 +27,8 @@ use std::sync::{Arc, Mutex};
 
 pub use blob_column_factory::*;
 use bytes::Bytes;
+#[cfg(risinglight_verif)]
+pub use char_column_builder::CharColumnBuilder;
 pub use char_column_factory::*;
 pub use column_builder::*;
 pub use column_iterator::*;
